@@ -145,6 +145,33 @@ def g(a, b=5):
     return scale(total) + inner(b)
 '''
 
+THIS_RECEIVER_CLASS_SRC = '''
+class Scaler(object):
+    """
+    A scaler
+
+    :cvar factor: the factor
+    """
+    factor: int = 2
+
+    def __call__(this, value: int = 1, offset=0):
+        """
+        Scale
+
+        :param value: the value
+        :param offset: the offset
+        """
+        return value * this.factor + offset
+'''
+
+MODULE_DOC_PLUS_CLASS_SRC = '''"""Settings of the package."""
+
+
+class Settings(object):
+    debug: bool = False
+    level: int = 3
+'''
+
 STRING_ANN_CLASS_SRC = '''
 class Lazy(object):
     """
@@ -275,6 +302,7 @@ def ast_ops(kind):
     ])
     if kind == "class":
         ops["parse_merge_init"] = lambda n: canon_ir(parse.class_(n, merge_inner_function="__init__"))
+        ops["parse_merge_call"] = lambda n: canon_ir(parse.class_(n, merge_inner_function="__call__"))
     return ops
 
 
@@ -318,6 +346,8 @@ def initial_objects(tier):
     out.append(("ast.class", "ast:class", lambda: ast.parse(CLASS_SRC).body[0]))
     out.append(("ast.class_with_method", "ast:class", lambda: ast.parse(METHOD_SRC).body[0]))
     out.append(("ast.class_string_annotations", "ast:class", lambda: ast.parse(STRING_ANN_CLASS_SRC).body[0]))
+    out.append(("ast.class_call_with_odd_receiver", "ast:class", lambda: ast.parse(THIS_RECEIVER_CLASS_SRC).body[0]))
+    out.append(("ast.module_docstring_plus_class", "ast:class", lambda: ast.parse(MODULE_DOC_PLUS_CLASS_SRC)))
     out.append(("ast.class_init_string_annotations", "ast:class", lambda: ast.parse(INIT_STRING_ANN_CLASS_SRC).body[0]))
     out.append(("ast.method_posonly_receiver", "ast:function", lambda: ast.parse(POSONLY_METHOD_SRC).body[0].body[0]))
     out.append(("ast.class_with_posonly_method", "ast:class", lambda: ast.parse(POSONLY_METHOD_SRC).body[0]))
